@@ -7,6 +7,7 @@
 #include <AIToolbox/POMDP/Algorithms/POMCP.hpp>
 #include <AIToolbox/POMDP/Algorithms/rPOMCP.hpp>
 #include <AIToolbox/POMDP/Environments/TigerProblem.hpp>
+#include <AIToolbox/Factored/Utils/FactorGraph.hpp>
 
 using namespace verif;
 namespace F = AIToolbox::Factored;
@@ -27,7 +28,7 @@ static void build_spaces(int maxFactors, int maxSize) {
 
 long verif::verif_ncases(const std::string & tier) {
     if (tier == "thorough") build_spaces(4, 3); else build_spaces(3, 2);
-    return (long)g_spaces.size() + (tier == "thorough" ? 2000 : 200) + (tier == "thorough" ? 400 : 60);
+    return (long)g_spaces.size() + (tier == "thorough" ? 2000 : 200) + (tier == "thorough" ? 400 : 60) + (tier == "thorough" ? 600 : 80);
 }
 
 // all partial assignments over a space
@@ -72,8 +73,43 @@ static void planner_sequence(Rng & rng, const char * name, Planner & pl, const M
     Line l; l << "C10" << "range" << name << "|" << ok; l.emit();
 }
 
+// FactorGraph<Vector>: documented container sequences (getFactor / data writes / erase / copy construction) with the
+// static node pool in every fill state; a copy must be an exact replica of its source whatever earlier graphs left in the pool.
+using FG = F::FactorGraph<AIToolbox::Vector>;
+static void dumpGraph(Line & l, const FG & g, size_t nvars) {
+    l << (size_t)g.factorSize() << (size_t)g.variableSize();
+    for (auto it = g.begin(); it != g.end(); ++it) { l.nats(g.getVariables(it)); l.nums(std::vector<double>(it->getData().data(), it->getData().data() + it->getData().size())); }
+    for (size_t v = 0; v < nvars; ++v) { l.nats(g.getVariables(v)); l << (size_t)g.getFactors(v).size(); for (auto f : g.getFactors(v)) l.nats(g.getVariables(f)); }
+}
+static F::PartialKeys randomVars(Rng & rng, size_t n) {
+    F::PartialKeys k; for (size_t v = 0; v < n; ++v) if (rng.coin(1, 3)) k.push_back(v);
+    if (k.empty()) k.push_back(rng.below(n));
+    return k;
+}
+static void factorgraph_sequence(Rng & rng) {
+    // 1. a bigger graph whose erased variables fill the pool with nodes carrying LARGE variable indices
+    size_t nb = (size_t)rng.range(4, 9);
+    { FG big(nb);
+      for (int i = 0; i < (int)rng.range(2, 8); ++i) { auto it = big.getFactor(randomVars(rng, nb)); it->getData() = AIToolbox::Vector::Constant(2, (double)i); }
+      for (int i = 0; i < (int)rng.range(0, 4); ++i) big.erase(nb - 1 - rng.below(2));
+    }
+    // 2. a small graph, possibly reusing pooled nodes, then copied
+    size_t ns = (size_t)rng.range(2, 4);
+    FG small(ns);
+    for (int i = 0; i < (int)rng.range(1, 4); ++i) { auto it = small.getFactor(randomVars(rng, ns)); it->getData() = AIToolbox::Vector::Constant(1 + rng.below(2), 0.25 * (double)rng.range(-8, 8)); }
+    if (rng.coin(1, 3)) small.erase(rng.below(ns));
+    FG copy(small);
+    Line l; l << "C10" << "fgcopy" << "|"; Line a, b; dumpGraph(a, small, ns); dumpGraph(b, copy, ns);
+    l.tok(a.os.str()); l << "|"; l.tok(b.os.str()); l.emit();
+    // 3. the copy must be usable: add a factor and erase a variable on it
+    copy.getFactor(randomVars(rng, ns)); copy.erase(rng.below(ns));
+    Line r; r << "C10" << "range" << "FactorGraph.copy_usable" << "|" << (copy.variableSize() <= ns); r.emit();
+}
+
 void verif::verif_case(Rng & rng, long idx, const std::string & tier) {
     const long nShape = (long)g_spaces.size() + (tier == "thorough" ? 2000 : 200);
+    const long nPlan = nShape + (tier == "thorough" ? 400 : 60);
+    if (idx >= nPlan) { factorgraph_sequence(rng); return; }
     if (idx >= nShape) {
         namespace P = AIToolbox::POMDP;
         AIToolbox::Seeder::setRootSeed((unsigned)rng.next());
